@@ -100,3 +100,7 @@ Proof.
     + destruct (IH s1) as [k Hk]. exists (S k). cbn [firstn]. unfold run2 in *. cbn [fold_left]. rewrite E. exact Hk.
     + exists 1%nat. cbn [firstn fst]. unfold run2. cbn [fold_left]. rewrite E. reflexivity.
 Qed.
+
+(* the persistent attributes of the current source are exactly the cells the models account for *)
+Lemma cells_checked : cells_ok gen_cells = true.
+Proof. vm_compute. reflexivity. Qed.
